@@ -371,6 +371,9 @@ class Sem(object):
 
     # ---------------------------------------------------------- facts
     def facts_at(self, fn, node_id, depth=0):
+        return close_facts(self._facts_at(fn, node_id, depth))
+
+    def _facts_at(self, fn, node_id, depth=0):
         """set of (term, polarity) known to hold whenever node is evaluated:
         dominating branch edges + summaries of dominating validator calls"""
         cfg = fn.cfg
@@ -451,6 +454,31 @@ class Sem(object):
                                     break
                         if not dead:
                             out.add((t, ap))
+                if anc.k == 'compound':
+                    # earlier sibling 'if (C) <leaves>;' without else: C is false from there on
+                    from .tables import _ends
+                    for sib in anc.c:
+                        if sib is child:
+                            break
+                        if sib is not None and sib.k == 'if' and len(sib.c) >= 5 and sib.c[4] is None and sib.c[3] is not None and \
+                                _ends([sib.c[3]]) and not any(x.k in ('break', 'continue') for x in sib.c[3].walk()):
+                            cn = sib.c[2]
+                            cid = None
+                            for y in cn.walk():
+                                if cfg.pos.get(y.id) is not None:
+                                    cid = y.id
+                            tmp = []
+                            decompose(cn, False, tmp, self.resolver(fn))
+                            for (an, ap) in tmp:
+                                t = term(an)
+                                dead = cid is None
+                                if not dead:
+                                    for lid in term_vars(t):
+                                        if self.modified_between(fn, lid, cid, use_id):
+                                            dead = True
+                                            break
+                                if not dead:
+                                    out.add((t, ap))
                 child = anc
                 anc = anc.p
         # validator calls that dominate the position
@@ -669,3 +697,74 @@ class Flow(object):
 
     def call_names(self, node):
         return set(o[1] for o in self.origins(node) if o[0] in ('call', 'out'))
+
+
+def _term_atoms(t, pol, out):
+    """term-level decomposition of a condition known to have the given truth value"""
+    if isinstance(t, tuple) and t:
+        if t[0] == 'u' and t[1] == '!':
+            _term_atoms(t[2], not pol, out)
+            return
+        if t[0] == 'op' and t[1] == '!' and len(t) == 3:
+            _term_atoms(t[2], not pol, out)
+            return
+        if t[0] == 'b' and t[1] == '&&' and pol:
+            _term_atoms(t[2], True, out)
+            _term_atoms(t[3], True, out)
+            return
+        if t[0] == 'b' and t[1] == '||' and not pol:
+            _term_atoms(t[2], False, out)
+            _term_atoms(t[3], False, out)
+            return
+    out.add((t, pol))
+
+
+def close_facts(facts):
+    """propositional closure: unit resolution on kept composites ((A && B) false with A true => B false;
+    (A || B) true with A false => B true) and the size()/empty() equivalence"""
+    facts = set(facts)
+    changed = True
+    rounds = 0
+    while changed and rounds < 4:
+        changed = False
+        rounds += 1
+        new = set()
+        for (t, pol) in facts:
+            if not (isinstance(t, tuple) and t):
+                continue
+            if t[0] == 'b' and t[1] == '&&' and pol is False:
+                a, b = set(), set()
+                _term_atoms(t[2], True, a)
+                _term_atoms(t[3], True, b)
+                if a and a <= facts:
+                    _term_atoms(t[3], False, new)
+                if b and b <= facts:
+                    _term_atoms(t[2], False, new)
+            elif t[0] == 'b' and t[1] == '||' and pol is True:
+                a, b = set(), set()
+                _term_atoms(t[2], False, a)
+                _term_atoms(t[3], False, b)
+                if a and a <= facts:
+                    _term_atoms(t[3], True, new)
+                if b and b <= facts:
+                    _term_atoms(t[2], True, new)
+            elif t[0] == 'b' and len(t) == 4 and t[2][:2] in (('m', 'size'), ('m', 'length')) and len(t[2]) == 3:
+                v = t[2][2]
+                op, r = t[1], t[3]
+                nonempty = None
+                if r == ('k', 0):
+                    if op in ('>', '!='):
+                        nonempty = pol
+                    elif op in ('==', '<='):
+                        nonempty = not pol
+                elif r == ('k', 1):
+                    if op == '>=':
+                        nonempty = pol
+                    elif op == '<':
+                        nonempty = not pol
+                if nonempty is not None:
+                    new.add((('m', 'empty', v), not nonempty))
+        if not new <= facts:
+            facts |= new
+            changed = True
+    return facts
